@@ -519,6 +519,276 @@ fn exact_quad5(rng: &mut Rng, rep: &mut Report) {
     rep.note_max(if beyond { "info.worst_ratio.quad5_deg10..19" } else { "worst_ratio.quad5_poly_exact" }, r);
 }
 
+// ---------------------------------------------------------------------------------------------
+// polynomials with double-double coefficients in a local variable (t = x − a, or u = x − midpoint)
+
+/// Taylor shift: coefficients of p(a + t) in t (repeated synthetic division, double-double)
+fn taylor_shift(c: &[f64], a: f64) -> Vec<Dd> {
+    let mut q: Vec<Dd> = c.iter().map(|&v| Dd::new(v)).collect();
+    let n = q.len();
+    let da = Dd::new(a);
+    for i in 0..n.saturating_sub(1) {
+        for j in (i..n - 1).rev() {
+            q[j] = q[j] + da * q[j + 1];
+        }
+    }
+    q
+}
+/// p(t)·(t − root)
+fn dmul_lin(p: &[Dd], root: f64) -> Vec<Dd> {
+    let mut q = vec![Dd::ZERO; p.len() + 1];
+    for (i, &c) in p.iter().enumerate() {
+        q[i + 1] = q[i + 1] + c;
+        q[i] = q[i] - c * Dd::new(root);
+    }
+    q
+}
+/// ∫_0^w p(t) dt
+fn dint_0w(p: &[Dd], w: Dd) -> Dd {
+    let mut s = Dd::ZERO;
+    let mut pw = w;
+    for (k, &c) in p.iter().enumerate() {
+        s = s + c * pw / Dd::new(k as f64 + 1.0);
+        pw = pw * w;
+    }
+    s
+}
+/// ∫_{−h}^{h} p(u) du (h may be negative: the limits are then swapped)
+fn dint_sym(p: &[Dd], h: Dd) -> Dd {
+    let mut s = Dd::ZERO;
+    let mut pw = h;
+    for (k, &c) in p.iter().enumerate() {
+        if k % 2 == 0 {
+            s = s + c * pw * Dd::new(2.0) / Dd::new(k as f64 + 1.0);
+        }
+        pw = pw * h;
+    }
+    s
+}
+impl Poly {
+    /// exact ∫_a^b p in the shifted variable t = x − a: no cancellation between F(b) and F(a), so the
+    /// reference stays accurate to ~2^-100·P(X)·|b−a| however narrow the interval is
+    fn integral_shifted(&self, a: f64, b: f64) -> Dd {
+        dint_0w(&taylor_shift(&self.c, a), Dd::sum2(b, -a))
+    }
+}
+
+// ---------------------------------------------------------------------------------------------
+// intervals that are narrow relative to the magnitude of their end points: |b − a| = |a|·2^-j
+
+/// (a, b, j): |a| in [1e-2, 1e3], b = a ± |a|·2^-j (rounded), j = 10..50, either order of the limits
+fn narrow_interval(rng: &mut Rng) -> (f64, f64, usize) {
+    let mag = match rng.usize(0, 3) {
+        0 => *rng.choose(&[1000.0, 999.0, 512.0, 250.0, 100.0, 3.0, 1.0, 0.75, 0.1]),
+        1 => rng.log_range(100.0, 1e3),
+        _ => rng.log_range(1e-2, 1e3),
+    };
+    let a = mag * if rng.bool() { 1.0 } else { -1.0 };
+    let j = rng.usize(10, 50);
+    let w = mag * 2f64.powi(-(j as i32));
+    let mut b = if rng.bool() { a + w } else { a - w };
+    if b.abs() > 1e3 {
+        b = if b > a { a - w } else { a + w };
+    }
+    if rng.bool() {
+        (a, b, j)
+    } else {
+        (b, a, j)
+    }
+}
+
+/// exactness of the three rules on intervals of relative width 2^-10 .. 2^-50 (both orders of the limits);
+/// the reference integral is evaluated in the shifted variable
+fn exact_narrow(rng: &mut Rng, rep: &mut Report, which: usize) {
+    let (a, b, j) = narrow_interval(rng);
+    orient(rep, a, b);
+    let (rule, dmax_mono, dmax_rand, regime, assertion) = match which {
+        0 => (Rule::Trapz(panels(rng)), 1, 1, "trapz:narrow(w=|a|*2^-10..-50)", "C07.trapz.affine_exact"),
+        1 => {
+            let k = rng.usize(2, 20);
+            let regime = if k <= 11 { "romberg:narrow(w=|a|*2^-10..-50):k=2..11" } else { "romberg:narrow(w=|a|*2^-10..-50):k=12..20" };
+            (Rule::Romberg(k), (2 * k - 1).min(19), (2 * k - 1).min(12), regime, "C07.romberg.poly_exact")
+        }
+        _ => (Rule::Quad5, 9, 9, "quad5:narrow(w=|a|*2^-10..-50)", "C07.quad5.poly_exact"),
+    };
+    let mono = rng.bool();
+    let dmax = if mono { dmax_mono } else { dmax_rand };
+    let d = match rng.usize(0, 3) {
+        0 => rng.usize(0, 2.min(dmax)),
+        1 => dmax,
+        _ => rng.usize(0, dmax),
+    };
+    let p = if mono { Poly::monomial(d) } else { Poly::random(rng, d) };
+    let f = |t: f64| p.eval(t);
+    rep.case(regime);
+    rep.seen(if j < 30 { "narrow:j=10..29" } else if j < 42 { "narrow:j=30..41" } else { "narrow:j=42..50" }, 1);
+    if let Rule::Romberg(k) = rule {
+        rep.seen(&format!("romberg:narrow:k={}", k), 1);
+        // hn drops below half an ulp of a inside the budget: new abscissae coincide with old ones
+        if ((b - a).abs() / 2f64.powi(k as i32 - 1)) < 0.25 * (a.abs().next_up() - a.abs()) {
+            rep.seen("romberg:narrow:abscissae-coincide", 1);
+        }
+    }
+    rep.distinct(Hasher::new().s("narrow").u(rule.tag()).f(a).f(b).fs(&p.c).finish(), true);
+    let x = a.abs().max(b.abs());
+    let r = check_exact(rep, assertion, regime, rule, &p, &f, p.absval(x), a, b, p.integral_shifted(a, b), true);
+    rep.note_max(&format!("worst_ratio.narrow.{}", rule.name()), r);
+    rep.sample(|| json!({"rule": rule.js(), "integrand": p.js(), "a": a, "b": b, "regime": regime, "relative_width_log2": -(j as i32), "err_over_tol": jnum(r)}));
+}
+
+// ---------------------------------------------------------------------------------------------
+// node-aliasing integrands: f(x) = C + s·r(u)·Π_i (u − ρ_i), u = x − midpoint, with the ρ_i the 2^L + 1
+// coarsest equispaced abscissae of the interval (L = 0..4: the nodes of Romberg levels 0..L). On a
+// dyadic interval every factor u − ρ_i is exact, so f takes the value C bit for bit at all those nodes:
+// the L+1 coarsest trapezoid estimates and every tableau entry built from them equal C·(b−a) exactly,
+// while the integral differs from C·(b−a) by s·∫ r·Π. The polynomial stays inside the rule's class.
+
+struct Alias {
+    mid: f64,
+    c0: f64,
+    s: f64,
+    /// r(u) = Σ r_j u^j
+    r: Vec<f64>,
+    roots: Vec<f64>,
+}
+impl Alias {
+    fn eval(&self, x: f64) -> f64 {
+        let u = x - self.mid;
+        let mut rv = 0.0;
+        for &c in self.r.iter().rev() {
+            rv = rv * u + c;
+        }
+        let mut pr = self.s * rv;
+        for &q in &self.roots {
+            pr *= u - q;
+        }
+        self.c0 + pr
+    }
+    /// s·r(u)·Π(u − ρ_i), without the constant
+    fn wiggle(&self, u: f64) -> f64 {
+        let mut rv = 0.0;
+        for &c in self.r.iter().rev() {
+            rv = rv * u + c;
+        }
+        let mut pr = self.s * rv;
+        for &q in &self.roots {
+            pr *= u - q;
+        }
+        pr
+    }
+    fn deg(&self) -> usize {
+        self.roots.len() + self.r.len() - 1
+    }
+    /// exact ∫ over [mid − h, mid + h] of the non-constant part, h = (b − a)/2 signed
+    fn wiggle_integral(&self, h: f64) -> Dd {
+        let mut p: Vec<Dd> = self.r.iter().map(|&c| Dd::new(c) * Dd::new(self.s)).collect();
+        for &q in &self.roots {
+            p = dmul_lin(&p, q);
+        }
+        dint_sym(&p, Dd::new(h))
+    }
+    fn js(&self) -> Value {
+        json!({"form": "C + s*r(u)*prod(u - root_i), u = x - mid", "mid": self.mid, "C": self.c0, "s": self.s, "r_low_to_high": jf(&self.r), "roots": jf(&self.roots)})
+    }
+}
+
+fn alias_case(rng: &mut Rng, rep: &mut Report, quad: bool) {
+    // dyadic interval: a on the 2^-6 grid in [-64, 64], width a multiple of 1/4 up to 32: every abscissa of
+    // every Romberg level up to 20 is exact, and so is x − mid
+    let a = rng.int(-4096, 4096) as f64 / 64.0;
+    let wq = match rng.usize(0, 2) {
+        0 => 1i64 << rng.usize(0, 7),
+        _ => rng.int(1, 128),
+    };
+    let w = wq as f64 / 4.0 * if rng.chance(0.4) { -1.0 } else { 1.0 };
+    let b = a + w;
+    let (h, mid) = (0.5 * w, a + 0.5 * w);
+    // quad5 is exact to degree 9: levels 0..2 only (2, 3, 5 nodes)
+    let lev = if quad { rng.usize(0, 2) } else { *rng.choose(&[0usize, 1, 2, 2, 2, 3, 3, 4]) };
+    let m = (1usize << lev) + 1;
+    let roots: Vec<f64> = (0..m).map(|i| -h + i as f64 * (w / (1usize << lev) as f64)).collect();
+    let dr_max = if quad { 9 - m } else { 3 };
+    let dr = rng.usize(0, dr_max.min(3));
+    // r(u) with small integer coefficients in u/2^e, 2^e ~ |h| (a power of two: no extra rounding)
+    let e = h.abs().log2().round() as i32;
+    let mut r: Vec<f64> = (0..=dr).map(|jj| rng.int(-4, 4) as f64 * 2f64.powi(-e * jj as i32)).collect();
+    if r[dr] == 0.0 {
+        r[dr] = 2f64.powi(-e * dr as i32);
+    }
+    let c0 = match rng.usize(0, 3) {
+        0 => 0.0,
+        1 => rng.int(-40, 40) as f64 / 8.0,
+        2 => rng.int(1, 9) as f64,
+        _ => rng.normal() * 10f64.powf(rng.range(-2.0, 2.0)),
+    };
+    // s: a power of two that brings the product term to the order 2^-2 .. 2^8
+    let s = 2f64.powi(-e * m as i32 + rng.int(-2, 8) as i32) * if rng.bool() { 1.0 } else { -1.0 };
+    let al = Alias { mid, c0, s, r, roots };
+    let d = al.deg();
+    let rule = if quad {
+        Rule::Quad5
+    } else {
+        let kmin = (d + 2) / 2; // 2k − 1 >= d
+        let k = match rng.usize(0, 9) {
+            0..=5 => rng.usize(kmin, (kmin + 3).min(20)),
+            6..=8 => rng.usize(kmin, 14.max(kmin)),
+            _ => rng.usize(kmin, 20),
+        };
+        Rule::Romberg(k.max(2))
+    };
+    let regime: &str = if quad {
+        "quad5:node-aliasing"
+    } else {
+        ["romberg:node-aliasing:2-nodes", "romberg:node-aliasing:3-nodes", "romberg:node-aliasing:5-nodes", "romberg:node-aliasing:9-nodes", "romberg:node-aliasing:17-nodes"][lev]
+    };
+    orient(rep, a, b);
+    rep.case(regime);
+    if let Rule::Romberg(k) = rule {
+        rep.seen(&format!("romberg:alias:k={}", k), 1);
+    }
+    // the construction really aliases: f = C bit for bit at the m nodes a + i·(b−a)/2^lev
+    let step = w / (1usize << lev) as f64;
+    let aliased = (0..m).all(|i| al.eval(a + i as f64 * step).to_bits() == c0.to_bits() || (c0 == 0.0 && al.eval(a + i as f64 * step) == 0.0));
+    if !aliased {
+        rep.inconclusive(format!("node-aliasing generator: integrand does not take the value C at the nodes (a={}, b={}, lev={})", a, b, lev));
+        return;
+    }
+    // sup of the non-constant part over the interval (sampled 32 times per node spacing, +50 %)
+    let ns = 32 * (m - 1).max(1) * 2;
+    let mut sup = 0.0f64;
+    for i in 0..=ns {
+        sup = sup.max(al.wiggle(-h + w * i as f64 / ns as f64).abs());
+    }
+    sup *= 1.5;
+    let wi = al.wiggle_integral(h);
+    let integral = Dd::prod(c0, w) + wi;
+    let f = |t: f64| al.eval(t);
+    let xmax = a.abs().max(b.abs());
+    // evaluation error of the product form: relative (d+2)u per value; quad5's abscissae are rounded
+    // (u·X each), which moves f by at most |f'|·u·X <= d²/|h|·sup·u·X (Markov); Romberg's are exact here
+    let node_term = if quad { 8.0 * U * xmax * (d * d) as f64 * sup / h.abs() } else { 0.0 };
+    let tol = w.abs() * ((c0.abs() + sup) * (32.0 * gamma_n(rule.evals() + 4) + 16.0 * (d as f64 + 2.0) * U) + node_term) + 1e-300;
+    let powered = wi.f().abs() > 1e3 * tol;
+    rep.seen(if powered { "alias:integral-differs-from-C(b-a)" } else { "alias:integral-indistinguishable(low-power)" }, 1);
+    rep.distinct(Hasher::new().s("alias").u(rule.tag()).f(a).f(b).f(c0).f(s).fs(&al.r).u(lev as u64).finish(), powered);
+    let np = format!("C07.{}.no_panic", rule.name());
+    let assertion = format!("C07.{}.poly_exact", rule.name());
+    match apply(rule, &f, a, b) {
+        Err(msg) => {
+            rep.check(&np, regime, false, || ctx(rule, al.js(), a, b, json!({"panic": msg})));
+        }
+        Ok(q) => {
+            rep.check(&np, regime, true, || json!(null));
+            let err = (Dd::new(q) - integral).f().abs();
+            rep.note_max(if quad { "worst_ratio.alias.quad5" } else { "worst_ratio.alias.romberg" }, if err.is_nan() { f64::INFINITY } else { err / tol });
+            rep.check(&assertion, regime, err <= tol, || {
+                ctx(rule, al.js(), a, b, json!({"observed": jnum(q), "expected": integral.f(), "C*(b-a)": c0 * w, "integral_of_non_constant_part": wi.f(), "abs_err": jnum(err), "tol": tol, "degree": d, "nodes_with_f=C": m}))
+            });
+        }
+    }
+    rep.sample(|| json!({"rule": rule.js(), "integrand": al.js(), "a": a, "b": b, "regime": regime, "integral": integral.f()}));
+}
+
 fn pick_rule(rng: &mut Rng, which: usize) -> Rule {
     match which {
         0 => Rule::Trapz(panels(rng)),
@@ -845,10 +1115,12 @@ fn samples(rng: &mut Rng, rep: &mut Report, maxlen: usize) {
 }
 
 pub fn run(cfg: &Cfg, rep: &mut Report) {
-    rep.rule = "rule x integrand x interval evaluations. intervals: end points in +-1e3 (wide, unit-scale, symmetric, narrow-far-from-0, dyadic, [0,c]), 40% with a > b, a = b separately; trapz panels 1..4096; romberg(eps=0) level budgets 2..12 on monomials/random polynomials up to degree 2k-1 (<= 23) and 13..20 on degree <= 3; quad5 degrees 0..9 (10..19 recorded, not asserted); linearity and antisymmetry per rule; 22 smooth integrands for the trapezoid error bound and romberg with eps in 1e-3..1e-12, budgets 2..20; sampled trapezoid lengths 2..1e4 with uniform x, non-uniform x (spacing ratios to 1e6), dx, default dx. one evaluation = one relation checked (1-3 library calls). non-trivial = non-constant integrand, a != b (samples: length >= 3); distinct by (rule, parameters, limits, integrand)".into();
+    rep.rule = "rule x integrand x interval evaluations. intervals: end points in +-1e3 (wide, unit-scale, symmetric, narrow-far-from-0, dyadic, [0,c]), 40% with a > b, a = b separately; trapz panels 1..4096; romberg(eps=0) level budgets 2..12 on monomials/random polynomials up to degree 2k-1 (<= 23) and 13..20 on degree <= 3; quad5 degrees 0..9 (10..19 recorded, not asserted); linearity and antisymmetry per rule; 22 smooth integrands for the trapezoid error bound and romberg with eps in 1e-3..1e-12, budgets 2..20; sampled trapezoid lengths 2..1e4 with uniform x, non-uniform x (spacing ratios to 1e6), dx, default dx; narrow intervals |b-a| = |a|*2^-j (j = 10..50, |a| to 1e3, both orders) for all three rules with romberg(eps=0) budgets 2..20 on monomials to degree min(2k-1,19) / random polynomials to degree 12; node-aliasing polynomials C + s*r*prod(x - node_i) over the 2, 3, 5, 9, 17 coarsest equispaced nodes of dyadic intervals for romberg(eps=0, smallest sufficient budget .. 20) and quad5. one evaluation = one relation checked (1-3 library calls). non-trivial = non-constant integrand, a != b (samples: length >= 3); distinct by (rule, parameters, limits, integrand)".into();
     rep.assume("integrands are finite on the interval; smooth catalogue entries are used inside their natural domain only (exp on +-10, 1/x on [0.1,1e3], ...)");
     rep.assume("romberg linearity / antisymmetry / polynomial exactness are judged at eps = 0 (fixed tableau); with eps > 0 the stopping level depends on the integrand");
     rep.assume("romberg tolerance-order bound is asserted only when the exact-arithmetic method (reference tableau in double-double) converges within the level budget and its stopping criterion is not fooled (every level at which it could stop is within 10*eps*max(1,|I|)); other cases are counted under romberg:smooth:undecided(...) / criterion-fooled");
+    rep.assume("narrow intervals: |b-a| = |a|*2^-j, j = 10..50, |a| in 1e-2..1e3, both orders; same exactness tolerance as everywhere (|b-a|*P(X)*(32 gamma_{N+4} + 16(d+1)u)); the reference integral is evaluated in the shifted variable t = x - a (Taylor shift in double-double) so that it does not cancel");
+    rep.assume("node-aliasing integrands C + s*r(u)*prod(u - node_i) on dyadic intervals (all abscissae exact): tolerance |b-a|*((|C| + sup|s r prod|)*(32 gamma_{N+4} + 16(d+2)u)) (+ the effect of quad5's rounded abscissae, 8u*X*d^2*sup/|h|); sup sampled at 32 points per node spacing, +50%; romberg at eps = 0 with budgets from the smallest k with 2k-1 >= degree up to 20");
     rep.assume("quad5 is required to be exact to degree 9 only; degrees 10..19 are recorded (info.*) but not asserted");
     rep.assume("max|f''| is an upper bound evaluated from the closed form at the end points and interior stationary points");
     let cat = catalogue();
@@ -863,6 +1135,8 @@ pub fn run(cfg: &Cfg, rep: &mut Report) {
     let n_strapz = cfg.pick(900, 15000, 10);
     let n_sromb = cfg.pick(500, 8000, 6);
     let n_samp = cfg.pick(600, 10000, 8);
+    let n_narrow = cfg.pick(300, 5000, 4); // per rule
+    let n_alias = cfg.pick(500, 8000, 5);
     let max_levels = if cfg.miri() { 8 } else { 20 };
     let maxlen = if cfg.miri() { 40 } else { 10_000 };
     par_cases(cfg, rep, 1, n_trapz, |_i, rng, rep| exact_trapz(rng, rep));
@@ -875,6 +1149,30 @@ pub fn run(cfg: &Cfg, rep: &mut Report) {
     par_cases(cfg, rep, 8, n_strapz, |_i, rng, rep| smooth_trapz(rng, rep, cat));
     par_cases(cfg, rep, 9, n_sromb, |_i, rng, rep| smooth_romberg(rng, rep, cat, max_levels));
     par_cases(cfg, rep, 10, n_samp, |_i, rng, rep| samples(rng, rep, maxlen));
+    // narrow intervals (3 rules in turn; under Miri trapz and quad5 only: a 20-level tableau is 5e5 evaluations)
+    par_cases(cfg, rep, 12, 3 * n_narrow, |i, rng, rep| exact_narrow(rng, rep, if cfg.miri() { [0, 2, 0][i % 3] } else { i % 3 }));
+    if !cfg.miri() {
+        par_cases(cfg, rep, 13, n_alias, |i, rng, rep| alias_case(rng, rep, i % 5 == 4));
+        // the literal intervals of the class: a few ulps wide next to ±1000, 250 and 1, budgets across 2..20
+        par_cases(cfg, rep, 14, 1, |_i, _rng, rep| {
+            let t33 = 2f64.powi(-33);
+            for (a, b) in [(1000.0 - t33, 1000.0), (1000.0, 1000.0 - t33), (-1000.0, -1000.0 + t33), (250.0, 250.0 + 2f64.powi(-36)), (1.0 + 2f64.powi(-44), 1.0), (999.0, 999.0 + 2f64.powi(-40))] {
+                for k in 2..=if cfg.lite { 12 } else { 20 } {
+                    for d in [0usize, 1, 2, 3] {
+                        if d > 2 * k - 1 {
+                            continue;
+                        }
+                        let p = Poly::monomial(d);
+                        let f = |t: f64| p.eval(t);
+                        let regime = if k <= 11 { "romberg:narrow(w=|a|*2^-10..-50):k=2..11" } else { "romberg:narrow(w=|a|*2^-10..-50):k=12..20" };
+                        rep.case(regime);
+                        let x = a.abs().max(b.abs());
+                        check_exact(rep, "C07.romberg.poly_exact", regime, Rule::Romberg(k), &p, &f, p.absval(x), a, b, p.integral_shifted(a, b), true);
+                    }
+                }
+            }
+        });
+    }
     // the DESIGN probe, literally: trapz(1, 0, 1, 4) and trapz(x, 0, 1, 4)
     par_cases(cfg, rep, 11, 1, |_i, _rng, rep| {
         let one = Poly::monomial(0);
@@ -902,7 +1200,22 @@ pub fn run(cfg: &Cfg, rep: &mut Report) {
             rep.require(r, 1);
         }
     }
+    rep.require("trapz:narrow(w=|a|*2^-10..-50)", 1);
+    rep.require("quad5:narrow(w=|a|*2^-10..-50)", 1);
+    if !cfg.miri() {
+        rep.require("romberg:narrow(w=|a|*2^-10..-50):k=2..11", 1);
+        rep.require("romberg:narrow(w=|a|*2^-10..-50):k=12..20", 1);
+    }
     if !cfg.lite {
+        for r in ["narrow:j=10..29", "narrow:j=30..41", "narrow:j=42..50", "romberg:narrow:abscissae-coincide", "quad5:node-aliasing", "alias:integral-differs-from-C(b-a)"] {
+            rep.require(r, 1);
+        }
+        for r in ["romberg:node-aliasing:2-nodes", "romberg:node-aliasing:3-nodes", "romberg:node-aliasing:5-nodes", "romberg:node-aliasing:9-nodes", "romberg:node-aliasing:17-nodes"] {
+            rep.require(r, 1);
+        }
+        for k in 2..=20 {
+            rep.require(&format!("romberg:narrow:k={}", k), 1);
+        }
         rep.require("romberg:lowdeg:k=13..20", 1);
         rep.require("romberg:top-degree-2k-1", 10);
         rep.require("romberg:smooth:aliasing-interval", 1);
